@@ -145,3 +145,69 @@ func TestZZReplay(t *testing.T) {
 		},
 	})
 }
+
+// modelReplicas renders the replica list the model chose at the first lock acquisition.
+func modelReplicas(vals map[string]string, field string) (goModes string, addrOf map[string]string, n int, ok bool) {
+	ln, has := intVal(vals, "len("+field+")")
+	if !has || ln < 0 || ln > 4 {
+		return "", nil, 0, false
+	}
+	addrOf = map[string]string{}
+	var ms []string
+	for i := 0; i < int(ln); i++ {
+		m := vals[fmt.Sprintf("%s[%d].Mode", field, i)]
+		mode := "WO"
+		if strings.HasPrefix(m, "str:") {
+			mode = strings.TrimPrefix(m, "str:")
+		}
+		if mode != "RW" && mode != "WO" && mode != "ERR" {
+			return "", nil, 0, false
+		}
+		ms = append(ms, "types."+mode)
+		addrOf[vals[fmt.Sprintf("%s[%d].Address", field, i)]] = fmt.Sprintf("tcp://10.0.0.%d:9502", i+1)
+	}
+	return "[]types.Mode{" + strings.Join(ms, ", ") + "}", addrOf, int(ln), true
+}
+
+func init() {
+	// lock invariant `status` (ReadOnly / RWReplicaCount agree with the replica list) at an Unlock of a controller operation
+	replayTemplates = append(replayTemplates, replayTemplate{
+		match: func(o *Obligation) bool {
+			return o.Fn == "controller.Controller.SetReplicaMode" && strings.HasPrefix(o.Kind, "lockinv.status")
+		},
+		pkg: "controller",
+		gen: func(o *Obligation, vals map[string]string) (string, bool) {
+			modes, addrOf, n, ok := modelReplicas(vals, "c.replicas@lock1")
+			rf, ok2 := intVal(vals, "c.ReplicationFactor")
+			if !ok || !ok2 || n == 0 || rf < 0 || rf > 64 {
+				return "", false
+			}
+			addr, known := addrOf[vals["address"]]
+			if !known {
+				addr = "tcp://10.9.9.9:9502"
+			}
+			mode := strings.TrimPrefix(vals["mode"], "str:")
+			body := fmt.Sprintf(`
+func TestZZReplay(t *testing.T) {
+	c, _ := zzController(%d, %s, 1<<30)
+	before := fmt.Sprintf("%%+v RO=%%v RWcount=%%d", c.replicas, c.ReadOnly, c.RWReplicaCount)
+	err := c.SetReplicaMode(%q, types.Mode(%q))
+	rw := 0
+	for _, r := range c.replicas {
+		if r.Mode == types.RW {
+			rw++
+		}
+	}
+	wantRO := rw < (c.ReplicationFactor+c.quorumReplicaCount)/2+1
+	t.Logf("RF=%%d before: %%s; SetReplicaMode(%%q,%%q) err=%%v; after: %%+v RO=%%v RWcount=%%d (actual RW entries %%d, read-only should be %%v)",
+		c.ReplicationFactor, before, %q, %q, err, c.replicas, c.ReadOnly, c.RWReplicaCount, rw, wantRO)
+	if c.RWReplicaCount != rw || c.ReadOnly != wantRO {
+		t.Fatalf("REPLAY-REPRODUCED: after the call returned (lock released) the reported RW count / read-only status disagree with the replica list")
+	}
+	t.Log("REPLAY-NOT-REPRODUCED")
+}
+`, rf, modes, addr, mode, addr, mode)
+			return ctlMock + body, true
+		},
+	})
+}
